@@ -88,7 +88,7 @@ def gen_spec(rng, flavour=None):
         for leaf in leaves:
             if rng.random() < 0.5:
                 leaf["only_workers"] = sorted(rng.sample(range(len(workers)), rng.randint(1, len(workers) - 1)))
-    node_params = {"test_timeout": rng.choice(["100", "100", "10", "250"]), "pool_scope": rng.choice(SCOPES)}
+    node_params = {"test_timeout": rng.choice(["100", "100", "10", "250", "3600"]), "pool_scope": rng.choice(SCOPES)}      # 3600: the package default
     if flavour == "retry" or rng.random() < 0.25:
         node_params["max_tries"] = rng.choice(["2", "3", "4", "2", "3", "0"])      # 0 is accepted by the code: no retries
         if rng.random() < 0.5:
@@ -228,8 +228,9 @@ def search_around(rng, case, n, max_sections=1500):
             for leaf in spec["leaves"]:
                 leaf.pop("only_workers", None)
         timed = (k % 3 == 2)
-        if timed:
-            # as in one_case: short time-outs keep the number of back-off periods per test small
+        if timed and not (spec["node_params"].get("test_timeout") == "3600" and k % 2 == 0):
+            # as in one_case: short time-outs keep the number of back-off periods per test small (but the package default of
+            # 3600 s, whose back-off period exceeds a second, is kept every other time)
             spec["node_params"]["test_timeout"] = rng.choice(["1", "2", "3"])
             for sts in spec["states"].values():
                 for st in sts:
